@@ -101,6 +101,7 @@ def run(F, chk):
                 else:
                     ra.violation(key, rdy.where(hits[0][0]), "%s::%s is answered with %s instead of %d" % (adt.split("::")[-1], var, sorted(codes), want))
     answer_replaces_partial_response(F, chk)
+    keepalive_rule(F, chk)
     # ---------------- R-C02-b / c (path engine on Mux::timeout) -----------------------
     rb = chk.rule("R-C02-b", "T3(path engine)", "answers produced by Mux::timeout are followed by a frontend write pass", floor=1)
     rc = chk.rule("R-C02-c", "T3(path engine)", "a fired timer is re-armed on every path that keeps the session", floor=1)
@@ -242,3 +243,34 @@ def first_answer(b, start, site, weight):
     """site is reachable from start without passing another answer call first"""
     others = [x for x in weight if x != site]
     return site in b.reach_from([start], removed=others)
+
+
+def keepalive_rule(F, chk):
+    """R-C02-f: an HTTP/1 backend connection is parked for reuse (BackendStatus::KeepAlive) only when the response on
+    it is over: every construction of BackendStatus::KeepAlive lies on the true edge of Kawa::is_terminated() of a
+    `back` kawa.  `drained so far` (is_completed) is not `ended`: a stream reset in the middle of a response would leave
+    the rest of that response on the socket, to be parsed as the answer to the next request that reuses it."""
+    r = chk.rule("R-C02-f", "T5", "a backend connection is kept for reuse only after its response terminated", floor=1)
+    n = 0
+    for b in F.grep('"var":"KeepAlive"'):
+        if b.derived or not (b.path.startswith(MUX) or b.path.startswith("<" + MUX)):
+            continue
+        fb = lib.flat(F, b)
+        sites = [(bi, si) for bi, si, st in fb.stmts() if st.get("rv", {}).get("k") == "agg" and st["rv"].get("var") == "KeepAlive"
+                 and st["rv"].get("adt", "").endswith("BackendStatus")]
+        if not sites:
+            continue
+        r.fn(b.path)
+        def pred(sb, truth, atom):
+            if atom[0] != "call" or not atom[1].endswith("::is_terminated") or truth is not True:
+                return False
+            return any(f == "back" for a in atom[2]["args"] for _, f in guards.slice_of_operand(fb, a)["fields"])
+        edges = lib.edges_where(fb, pred)
+        for i, (bi, si) in enumerate(sites):
+            n += 1
+            key = "%s|KeepAlive#%d behind back.is_terminated()" % (b.path, i)
+            if edges and lib.guarded_by(fb, bi, edges):
+                r.ok(key, fb.where(bi, si), "only on the true edge of back.is_terminated()")
+            else:
+                r.violation(key, fb.where(bi, si), "the backend connection is marked KeepAlive without the response on it being terminated: after a mid-response reset the leftover bytes are read as the next request's answer")
+    r.require(n >= 1, "no construction of BackendStatus::KeepAlive found in the mux")
